@@ -467,7 +467,7 @@ example : emitImpl 1 exProg { impls := [(1, {})] } .I (some 1) 3 .sum = some ({ 
 theorem acc_called_once (f : Nat) (P : Prog) (s : St) (fl : Flavour) (i arg : Nat) (strat : Strat) (im : Impl)
     (hacc : fl.isAcc = true) (hi : aget s.impls i = some im) :
     emitImpl (f+1) P s fl (some i) arg strat =
-      (match runStrat f P (emitPrologue s i im) i (emitFirst s im) s.next arg strat with
+      (match runStrat f P (emitPrologue s i im) i (emitFirst s im) s.next arg (strat.forFlavour fl) with
        | none => none
        | some (s2, o, v) => some (emitEpilogue s2 i s.next o v)) :=
   emitImpl_acc_unfold f P s fl i arg strat im hacc hi
@@ -491,7 +491,7 @@ theorem emit_returns_accumulator_result (s : St) (i m : Nat) (o : Outcome) (v : 
 theorem emit_acc_value (f : Nat) (P : Prog) (s s' : St) (fl : Flavour) (i arg : Nat) (strat : Strat) (im : Impl)
     (o : Outcome) (v : Nat) (hacc : fl.isAcc = true) (hi : aget s.impls i = some im)
     (h : emitImpl (f+1) P s fl (some i) arg strat = some (s', o, v)) :
-    ∃ s2, runStrat f P (emitPrologue s i im) i (emitFirst s im) s.next arg strat = some (s2, o, v) ∧
+    ∃ s2, runStrat f P (emitPrologue s i im) i (emitFirst s im) s.next arg (strat.forFlavour fl) = some (s2, o, v) ∧
           s' = (emitEpilogue s2 i s.next o v).1 := by
   rw [acc_called_once f P s fl i arg strat im hacc hi] at h
   split at h
